@@ -20,12 +20,18 @@ const MaxPaths = 50000
 // the terminating instruction. Constant-false edges are not followed. It
 // returns false when the enumeration was cut off at MaxPaths.
 func EnumPaths(fn *ssa.Function, start *Edge, withPanics bool, visit func(p BlockPath, end ssa.Instruction)) bool {
+	return EnumPathsN(fn, start, withPanics, 1, visit)
+}
+
+// EnumPathsN is EnumPaths with every CFG edge traversed at most maxUse times
+// (maxUse = 2 covers two iterations of every loop).
+func EnumPathsN(fn *ssa.Function, start *Edge, withPanics bool, maxUse int, visit func(p BlockPath, end ssa.Instruction)) bool {
 	if fn == nil || len(fn.Blocks) == 0 {
 		return true
 	}
 	count := 0
 	complete := true
-	used := map[Edge]bool{}
+	used := map[Edge]int{}
 	var path BlockPath
 	var rec func(b *ssa.BasicBlock)
 	rec = func(b *ssa.BasicBlock) {
@@ -54,17 +60,17 @@ func EnumPaths(fn *ssa.Function, start *Edge, withPanics bool, visit func(p Bloc
 		}
 		for k := range b.Succs {
 			e := Edge{b, k}
-			if used[e] || constEdgeDead(e) {
+			if used[e] >= maxUse || constEdgeDead(e) {
 				continue
 			}
-			used[e] = true
+			used[e]++
 			rec(b.Succs[k])
-			delete(used, e)
+			used[e]--
 		}
 	}
 	if start != nil {
 		path = append(path, start.From)
-		used[*start] = true
+		used[*start]++
 		rec(start.To())
 	} else {
 		rec(fn.Blocks[0])
@@ -306,8 +312,29 @@ func sameFieldAddr(a, b ssa.Value) bool {
 // inductionFromZero: idx takes the values 0,1,2,... : either idx = phi(-1,
 // idx')+1 (range form: t3 = t2 + 1 with t2 = phi[-1, t3]) or idx = phi(0, idx+1).
 func inductionFromZero(idx ssa.Value) bool {
+	// all phi edges are either the increment (back edges) or one constant
+	split := func(phi *ssa.Phi, isBack func(ssa.Value) bool) (int64, bool) {
+		back, inits := 0, 0
+		var init int64
+		for _, e := range phi.Edges {
+			if isBack(e) {
+				back++
+				continue
+			}
+			c, ok := ConstInt(e)
+			if !ok || (inits > 0 && c != init) {
+				return 0, false
+			}
+			init = c
+			inits++
+		}
+		if back == 0 || inits == 0 {
+			return 0, false
+		}
+		return init, true
+	}
 	switch x := idx.(type) {
-	case *ssa.BinOp: // rotated: idx = phi + 1
+	case *ssa.BinOp: // rotated: idx = phi + 1, phi = [init -1, back idx]
 		if x.Op != token.ADD {
 			return false
 		}
@@ -316,22 +343,12 @@ func inductionFromZero(idx ssa.Value) bool {
 			return false
 		}
 		phi, ok := x.X.(*ssa.Phi)
-		if !ok || len(phi.Edges) != 2 {
+		if !ok {
 			return false
 		}
-		init, back := phi.Edges[0], phi.Edges[1]
-		if back != idx {
-			init, back = back, init
-		}
-		if back != idx {
-			return false
-		}
-		c, ok := ConstInt(init)
-		return ok && c == -1
-	case *ssa.Phi:
-		if len(x.Edges) != 2 {
-			return false
-		}
+		init, ok := split(phi, func(v ssa.Value) bool { return v == idx })
+		return ok && init == -1
+	case *ssa.Phi: // idx = phi[init 0, back idx+1]
 		isInc := func(v ssa.Value) bool {
 			b, ok := v.(*ssa.BinOp)
 			if !ok || b.Op != token.ADD || b.X != idx {
@@ -340,15 +357,8 @@ func inductionFromZero(idx ssa.Value) bool {
 			one, ok := ConstInt(b.Y)
 			return ok && one == 1
 		}
-		init, back := x.Edges[0], x.Edges[1]
-		if !isInc(back) {
-			init, back = back, init
-		}
-		if !isInc(back) {
-			return false
-		}
-		c, ok := ConstInt(init)
-		return ok && c == 0
+		init, ok := split(x, isInc)
+		return ok && init == 0
 	}
 	return false
 }
@@ -417,6 +427,104 @@ func (l *Loop) BodyBlocks() map[*ssa.BasicBlock]bool {
 	for b := range fwd {
 		if back[b] {
 			out[b] = true
+		}
+	}
+	return out
+}
+
+// DefiniteNil says whether a value is certainly nil or certainly non-nil by
+// construction (nil constant; allocation, make, append of at least one
+// element, closure, constructor of an error value).
+func DefiniteNil(v ssa.Value) NilFact {
+	switch x := v.(type) {
+	case *ssa.Const:
+		if IsNilConst(x) {
+			return IsNil
+		}
+		return NilUnknown
+	case *ssa.Alloc, *ssa.MakeMap, *ssa.MakeSlice, *ssa.MakeChan, *ssa.MakeClosure, *ssa.Function, *ssa.FieldAddr, *ssa.IndexAddr:
+		return NonNil
+	case *ssa.MakeInterface:
+		return NonNil
+	case *ssa.ChangeInterface:
+		return DefiniteNil(x.X)
+	case *ssa.ChangeType:
+		return DefiniteNil(x.X)
+	case *ssa.Call:
+		if BuiltinName(x) == "append" && len(x.Call.Args) == 2 {
+			// append(s, elems...) with a non-empty literal argument list
+			if sl, ok := x.Call.Args[1].(*ssa.Slice); ok {
+				if _, ok := sl.X.(*ssa.Alloc); ok {
+					return NonNil
+				}
+			}
+			return DefiniteNil(x.Call.Args[0])
+		}
+		if f := x.Call.StaticCallee(); f != nil {
+			switch f.String() {
+			case "fmt.Errorf", "errors.New":
+				return NonNil
+			}
+		}
+	}
+	return NilUnknown
+}
+
+// FeasiblePath reports false when the path contradicts itself: it takes the
+// nil (non-nil) edge of a test of a value that, resolved along the path, is
+// certainly non-nil (nil).
+func FeasiblePath(p BlockPath) bool {
+	for i := 0; i+1 < len(p); i++ {
+		b := p[i]
+		if len(b.Instrs) == 0 {
+			continue
+		}
+		iff, ok := b.Instrs[len(b.Instrs)-1].(*ssa.If)
+		if !ok {
+			continue
+		}
+		tv, nilSucc, ok := NilTest(iff)
+		if !ok {
+			// an emptiness test of a slice decides like a nil test for
+			// values that are nil or built by appending at least one element
+			tv, nilSucc, ok = EmptyTest(iff)
+		}
+		if !ok || b.Succs[0] == b.Succs[1] {
+			continue
+		}
+		tv = ResolveOnPath(tv, p[:i+1])
+		tookNil := p[i+1] == b.Succs[nilSucc]
+		switch DefiniteNil(tv) {
+		case IsNil:
+			if !tookNil {
+				return false
+			}
+		case NonNil:
+			if tookNil {
+				return false
+			}
+		}
+	}
+	return true
+}
+
+// PathHasEdge reports whether the path traverses the edge.
+func PathHasEdge(p BlockPath, e Edge) bool {
+	for i := 0; i+1 < len(p); i++ {
+		if p[i] == e.From && p[i+1] == e.To() {
+			// make sure it is this successor (both successors may be the same block)
+			return true
+		}
+	}
+	return false
+}
+
+// PathIndexOfBlock returns the positions of block b on the path.
+func PathIndexOfBlock(p BlockPath, b *ssa.BasicBlock) []int {
+	var out []int
+	for i, x := range p {
+		if x == b {
+			out = append(out, i)
 		}
 	}
 	return out
